@@ -9,7 +9,8 @@ A history (JSON):
 valuespec: ["int", n] | ["str", s] | ["sym", s] | ["kw", s] | ["node", i] | ["val", j]
          | ["list"|"tuple"|"deque"|"mlist"|"expr"|"cyclist", [valuespec...]] | ["dict"|"odict"|"cycdict", [[k, v]...]]
          | ["deep", depth]
-script: list of ["emit", text] | ["look"] | ["call", ["node", i] | ["value", j], script] | ["raise"]
+script: list of ["emit", text] | ["look"] | ["call", target, script] | ["try", target, script, fallback] | ["raise"]
+        (target: ["node", i] | ["value", j]; "try" is the call inside try/except: on failure the fallback text is added)
 """
 import collections
 import json
@@ -81,15 +82,19 @@ def run_script(node, script):
             out.append(state_text())
         elif a[0] == "raise":
             raise ScriptError("scripted failure")
-        elif a[0] == "call":
-            marker = a[2]
-            PENDING.append(marker)
+        elif a[0] in ("call", "try"):
+            depth = len(PENDING)
+            if a[1][0] == "node":          # a script is handed over only to a scripted object called directly
+                PENDING.append(a[2])
             try:
                 out.append(hy_repr(resolve(a[1])))
+            except Exception:
+                if a[0] == "call":
+                    raise
+                out.append(a[3])
             finally:
-                # the printer was not invoked (placeholder, or the target is not a scripted object): drop the script
-                if PENDING and PENDING[-1] is marker:
-                    PENDING.pop()
+                # scripts that were not taken up (placeholder, target not a scripted object, failure below) are dropped
+                del PENDING[depth:]
         else:
             raise ValueError(a)
     return "".join(out)
